@@ -273,7 +273,7 @@ def tag_documents(rng, quick):
             tags = b"Tags " + b" ".join(rng.sample(pool, min(len(pool), rng.randint(1, 2)))) + b"\n"
             # the method-level Tags of a block that also has URL-level Tags name OTHER tags (most of the time)
             tags_m = b"Tags " + b" ".join(rng.sample(pool, min(len(pool), rng.randint(1, 2)))) + b"\n"
-            m = rng.choice([b"GET", b"POST", b"PUT"])
+            m = rng.choice([b"GET", b"POST", b"PUT", b"DELETE", b"PATCH"])
             if (m, p) in used or (form != 0 and p in urls):
                 continue
             used.add((m, p))
@@ -318,6 +318,12 @@ def tag_documents(rng, quick):
                 used.add((m2, p))
                 lines.append(b"URL " + p + b"\n  " + tags + b"  " + m + b"\n    200 any\n  " + m2 + b" " + p + b"\n    200 any\n")
         docs.append(("random", b"".join(lines)))
+    # untagged methods in a row whose first segments are string prefixes of one another (a tag remembered from the previous
+    # interaction is not the tag of the next one)
+    import itertools as _it
+    segs = [b"/cats", b"/catsitters", b"/cat", b"/cats/x", b"/catsitters/y", b"/c", b"/cats.v2", b"/cats_", b"/dogs"]
+    for combo in _it.permutations(segs, 3):
+        docs.append(("prefix-segments", J + b"".join(rng.choice([b"GET", b"DELETE", b"PATCH"]) + b" " + p + b"\n  200 any\n" for p in combo)))
     return docs
 
 
